@@ -67,7 +67,7 @@ Section LRun.
   | ls_reduce st inp p pr popped rest s' ns ne :
       In (Reduce p) (cell tb (top_state st) (la inp)) ->
       get_prod g p = Some pr ->
-      st = popped ++ rest -> length popped = length (rhs pr) ->
+      st = popped ++ rest -> length popped = length (rhs pr) -> rest <> [] ->
       goto tb (top_state rest) (lhs pr) = Some s' ->
       lstep (st, inp) ((s', TNode p ns ne (rev (map snd popped))) :: rest, inp).
 
